@@ -6,6 +6,7 @@ decrypters per group   loadDecrypters_fingerprints, foreign_fingerprint_has_no_d
                        rest_signed_route_rejects_key_of_another_group
 options                authOptions_prev_last_wins, authOptions_callback_irrelevant, authOptions_no_prev,
                        authorize_with_options_runs_iff, overridden_prev_secret_is_refused
+user callbacks         contentSecurity_strictness_only_matters_on_failure, cs_with_callbacks_runs_only_if_signature_covers_request
 both gates             rest_route_behind_both_gates_needs_both
 fail closed            unloadable_key_binds_nothing, loadDecrypters_fails_on_any_unloadable_key, verifierFor_ok
 rest monitor           rest_monitor_sound, authorize_ctx_forwarded
@@ -465,6 +466,40 @@ example : restServe (V := String) { jwt := true } ["use0"] ["cm0", authorizeName
     { ran := false, status := 401, ctx := [], usesRan := 0 } := by decide
 example : restServe (V := String) { jwt := true } ["use0"] ["cm0", authorizeName, "use0"] { ran := true, status := 200, ctx := [("uid", "1")] } none =
     { ran := true, status := 200, ctx := [("uid", "1")], usesRan := 1 } := by decide
+
+/-! ## user callbacks of the signature gate -/
+
+/-- when the two checks pass, strictness plays no part: the gate does the same in strict and in loose mode -/
+theorem contentSecurity_strictness_only_matters_on_failure (C : BlockCipher) (env : CsEnv) (cfg : CsCfg) (req : CsReq)
+    (inner : Inner) (b : Bool) (h : csVerificationFails env cfg req = false) :
+    contentSecurity C env { cfg with strict := b } req inner = contentSecurity C env cfg req inner := by
+  unfold csVerificationFails at h
+  unfold contentSecurity
+  by_cases hg : gatedMethods.contains req.method = true
+  · rw [if_pos hg, if_pos hg]
+    simp only [hg, Bool.true_and] at h
+    cases hp : parseContentSecurity env req with
+    | error e => simp [hp] at h
+    | ok hd =>
+      simp only [hp] at h
+      have hv : verifySignature env cfg.tol req hd = 0 := by simpa using h
+      simp [hv]
+  · rw [if_neg hg, if_neg hg]
+
+/-- with user callbacks (which replace the default one) the handler runs only when both checks passed — in strict AND in
+loose mode; for a checked method without X-Request-Uri that means: only with a covering signature -/
+theorem cs_with_callbacks_runs_only_if_signature_covers_request (C : BlockCipher) (env : CsEnv) (cfg : CsCfg) (req : CsReq)
+    (inner : Inner) (st : Nat) (hg : gatedMethods.contains req.method = true) (hu : req.uri = "")
+    (hran : (contentSecurityWithCallbacks C env cfg req inner st).ran = true) : csCovers env cfg req = true := by
+  unfold contentSecurityWithCallbacks at hran
+  by_cases hf : csVerificationFails env cfg req = true
+  · rw [if_pos hf] at hran; exact absurd hran (by simp)
+  · rw [if_neg hf] at hran
+    have hf' : csVerificationFails env cfg req = false := by simpa using hf
+    rw [← contentSecurity_strictness_only_matters_on_failure C env cfg req inner true hf'] at hran
+    have hcov := cs_runs_only_if_signature_covers_request C env { cfg with strict := true } req inner rfl hg hu hran
+    unfold csCovers at hcov ⊢
+    exact hcov
 
 /-! ## a route behind BOTH gates -/
 
